@@ -9,6 +9,14 @@
 //! Model/TimeCarry.lean) and as `ar.dtadd/dtsub/dtdiff` (the packed `NaiveDateTime` model of
 //! Model/DateTime.lean, answered by lean/Chrono/Drv/DateArith.lean; date = packed word `yof`) — the
 //! latter is the model `datetime_leap_carry` / `datetime_diff` are about.
+//! Operator impls (`+ - += -=` with `TimeDelta`, `core::time::Duration`, `FixedOffset`; `NaiveTime -
+//! NaiveTime`; `NaiveTime::MIN`) have their own ops (prefix `tmo.`, lean/Chrono/Drv/TimeOps.lean) and their
+//! own oracles (wrap around, never panic, = time component of the extended-line closed form).
+//! Date-time difference after date-time addition (audit G1): `(a + d) - a` is checked against `d` plus the
+//! error term of `Spec.diffAddErr` re-derived here in i128, every date-time difference against the
+//! extended-line distance of date-times plus the two cross terms (`Spec.dtDiffLine`, `Spec.crossErr`);
+//! inputs on which the error is not zero are COUNTED under `observation:` (documented behaviour of the
+//! crate, asserted by its own doc test; the property statement asks antisymmetry of differences only).
 use super::c01::yof;
 use crate::ctx::*;
 use chrono::{Datelike, FixedOffset, NaiveDate, NaiveDateTime, NaiveTime, TimeDelta, Timelike};
@@ -80,6 +88,42 @@ fn line_pos(x: (u32, u32), o: (u32, u32)) -> i128 {
 }
 fn spec_diff(a: (u32, u32), b: (u32, u32)) -> i128 {
     line_pos(a, b) - line_pos(b, a)
+}
+
+/// `Spec.diffAddErr` re-derived: the error of `(t + delta) - t` (carry included) against `delta`
+fn spec_diff_add_err(secs: u32, frac: u32, delta: i128) -> i128 {
+    let s = secs as i128;
+    let p = s * NS + frac as i128 + delta;
+    let l = (s + 1) * NS;
+    if (frac as i128) < NS {
+        return 0;
+    }
+    let r = spec_add(secs, frac, delta);
+    if p < l && secs < r.0 {
+        NS
+    } else if p >= l + NS && r.0 <= secs {
+        -NS
+    } else {
+        0
+    }
+}
+/// `Spec.dtDiffLine`: distance on the line of all date-times holding exactly the operands' leap seconds
+fn spec_dt_line_diff(a: (i64, u32, u32), b: (i64, u32, u32)) -> i128 {
+    let inst = |x: (i64, u32, u32)| x.0 as i128 * 86_400 + x.1 as i128;
+    let lp = |x: (i64, u32, u32), o: (i64, u32, u32)| inst(x) * NS + x.2 as i128 + if o.2 as i128 >= NS && inst(o) < inst(x) { NS } else { 0 };
+    lp(a, b) - lp(b, a)
+}
+/// `Spec.crossErr x o` by its case form (theorem datetime_diff_vs_line)
+fn spec_cross_err(x: (i64, u32, u32), o: (i64, u32, u32)) -> i128 {
+    if (o.2 as i128) < NS {
+        0
+    } else if o.0 < x.0 && x.1 <= o.1 {
+        -NS
+    } else if x.0 < o.0 && o.1 < x.1 {
+        NS
+    } else {
+        0
+    }
 }
 
 /// same list, same order as `boundaryNs` in lean/Chrono/Drv/Time.lean
@@ -178,6 +222,21 @@ fn check_add(
             }
             if rs >= 86_400 || rf >= 2_000_000_000 || (!leap && rf >= 1_000_000_000) {
                 fl.hit(c, "overflowing_add_signed built an invalid time (or a leap second out of nothing)", &format!("{} -> {rs} {rf}", desc()));
+            }
+            // the difference rules against the addition rules (theorems diff_inverts_add_same_day / diff_after_add):
+            // (t + d) - t, plus the carry, is d — up to the one-second term of a leap operand left across midnight
+            match guard(|| r.signed_duration_since(t)) {
+                Ok(x) => {
+                    let err = if *carry == 0 { 0 } else { spec_diff_add_err(secs, frac, dn) };
+                    if td_ns(&x) + *carry as i128 * NS != dn + err {
+                        fl.hit(c, "(t + d) - t plus the carry is not d (difference rules inconsistent with the addition rules)",
+                            &format!("{} -> {rs} {rf} {carry}; difference back {} ns, expected error term {err}", desc(), td_ns(&x)));
+                    }
+                    if err != 0 {
+                        tl.add("add:(t+d)-t off by one second (leap operand left across midnight, time of day)");
+                    }
+                }
+                Err(()) => fl.hit(c, "signed_duration_since panicked", &desc()),
             }
         }
         Err(()) => fl.hit(c, "overflowing_add_signed panicked", &desc()),
@@ -337,6 +396,44 @@ pub fn run(c: &mut Ctx) {
         }
     }
 
+    // ======== NaiveTime::MIN; the audit-G1 witnesses on the real crate ===========================
+    {
+        c.op("tmo.min", &show_t(&NaiveTime::MIN));
+        if raw(&NaiveTime::MIN) != (0, 0) || NaiveTime::MIN != NaiveTime::from_hms_opt(0, 0, 0).unwrap() {
+            fl.hit(&mut *c, "NaiveTime::MIN is not 00:00:00", &show_t(&NaiveTime::MIN));
+        }
+        let d31 = NaiveDate::from_ymd_opt(2016, 12, 31).unwrap();
+        let d01 = NaiveDate::from_ymd_opt(2017, 1, 1).unwrap();
+        // (a, duration in ns): leap second at the end of a day + 0.5 s, + 1 day; leap representation after 00:00:00 - 2 s
+        for (a, dn) in [
+            (NaiveDateTime::new(d31, mk(86_399, 1_500_000_000)), 500_000_000i128),
+            (NaiveDateTime::new(d31, mk(86_399, 1_500_000_000)), DAY),
+            (NaiveDateTime::new(d01, mk(0, 1_500_000_000)), -2 * NS),
+            (NaiveDateTime::new(d31, mk(86_399, 1_500_000_000)), -3600 * NS),
+        ] {
+            let (ts, frac) = raw(&a.time());
+            let (ds, df) = td_raw_of_ns(dn);
+            let got = guard(|| a.checked_add_signed(td_of_ns(dn)));
+            c.op(&format!("ar.dtadd {} {ts} {frac} {ds} {df}", yof(&a.date())), &match &got { Ok(o) => show_packed(*o), Err(()) => "panic".into() });
+            if let Ok(Some(b)) = got {
+                let back = guard(|| b.signed_duration_since(a));
+                c.op(&format!("ar.dtdiff {} {} {} {ts} {frac}", yof(&b.date()), show_t(&b.time()), yof(&a.date())), &match &back { Ok(x) => show_td(x), Err(()) => "panic".into() });
+                let err = spec_diff_add_err(ts, frac, dn);
+                match back {
+                    Ok(x) if td_ns(&x) == dn + err => {
+                        tl.add(if err != 0 { "observation:G1 witness: (a+d)-a differs from d by one second" } else { "dt:G1 control: (a+d)-a = d" });
+                        c.sample(&format!("{a:?} + {dn} ns = {b:?}; difference back = {} ns (cmp {:?})", td_ns(&x), b.cmp(&a)));
+                    }
+                    Ok(x) => fl.hit(&mut *c, "date-time difference after addition is not the duration plus the one-second error term of a leap operand left across midnight",
+                        &format!("{a:?} + {dn} ns = {b:?}; difference back {} ns, expected {dn} + {err}", td_ns(&x))),
+                    Err(()) => fl.hit(&mut *c, "date-time difference after addition panicked", &format!("{a:?} + {dn} ns")),
+                }
+            } else {
+                fl.hit(&mut *c, "date-time addition refused or panicked on an audit-G1 witness", &format!("{a:?} + {dn} ns"));
+            }
+        }
+    }
+
     // ======== the sweep over all 86 400 seconds ===============================================
     let lo_day = NaiveDate::MIN.num_days_from_ce() as i64;
     let hi_day = NaiveDate::MAX.num_days_from_ce() as i64;
@@ -381,6 +478,37 @@ pub fn run(c: &mut Ctx) {
             c.op(&format!("tm.sub {s2} {frac} {ds} {df}"), &show_tc(&sub));
             if secs % 8640 == 0 && k == 0 {
                 c.sample(&format!("tm.add {s2} {frac} {ds} {df} -> {}", show_tc(&add)));
+            }
+        }
+        // ---- operator forms + - += -= with TimeDelta: wrap around, never panic -------------------------
+        {
+            let frac = gen_frac(c);
+            let dn = if c.rng.chance(1, 2) { *c.rng.pick(&boundary_ns(secs, frac, ns_max, ns_min)) } else { gen_delta_ns(c, ns_max, ns_min) };
+            let t = mk(secs, frac);
+            let d = td_of_ns(dn);
+            let (ds, df) = td_raw_of_ns(dn);
+            let forms: [(&str, Result<NaiveTime, ()>, i128); 2] = if secs % 2 == 0 {
+                [("+", guard(|| t + d), dn), ("-=", guard(|| { let mut m = t; m -= d; m }), -dn)]
+            } else {
+                [("-", guard(|| t - d), -dn), ("+=", guard(|| { let mut m = t; m += d; m }), dn)]
+            };
+            for (w, got, eff) in forms {
+                c.op(&format!("tmo.td {w} {secs} {frac} {ds} {df}"), &match &got { Ok(x) => show_t(x), Err(()) => "panic".into() });
+                tl.add(if (frac as i128) >= NS { "op:TimeDelta operator form, leap operand" } else { "op:TimeDelta operator form, non-leap operand" });
+                match got {
+                    Ok(x) => {
+                        let e = spec_add(secs, frac, eff);
+                        if raw(&x) != (e.0, e.1) {
+                            fl.hit(c, "NaiveTime operator with TimeDelta is not the time of the extended-line sum (wrap around, carry dropped)",
+                                &format!("tmo.td {w} {secs} {frac} {ds} {df} -> {}, expected {} {}", show_t(&x), e.0, e.1));
+                        }
+                        let o = if eff == dn && w != "-" && w != "-=" { guard(|| t.overflowing_add_signed(d).0) } else { guard(|| t.overflowing_sub_signed(d).0) };
+                        if o != Ok(x) {
+                            fl.hit(c, "NaiveTime operator with TimeDelta differs from the overflowing_* form", &format!("tmo.td {w} {secs} {frac} {ds} {df} -> {}", show_t(&x)));
+                        }
+                    }
+                    Err(()) => fl.hit(c, "NaiveTime operator with TimeDelta panicked (must wrap around)", &format!("tmo.td {w} {secs} {frac} {ds} {df}")),
+                }
             }
         }
         // ---- accessors ---------------------------------------------------------------------------
@@ -452,6 +580,17 @@ pub fn run(c: &mut Ctx) {
             let ba = guard(|| b.signed_duration_since(a));
             c.op(&format!("tm.diff {secs} {fa} {sb} {fb}"), &match &ab { Ok(d) => show_td(d), Err(()) => "panic".into() });
             if k == 0 {
+                // `impl Sub<NaiveTime> for NaiveTime`
+                let opd = guard(|| a - b);
+                c.op(&format!("tmo.tsub {secs} {fa} {sb} {fb}"), &match &opd { Ok(d) => show_td(d), Err(()) => "panic".into() });
+                match opd {
+                    Ok(d) => {
+                        if td_ns(&d) != spec_diff((secs, fa), (sb, fb)) {
+                            fl.hit(c, "NaiveTime - NaiveTime is not the distance on the line holding the operands' leap seconds", &format!("tmo.tsub {secs} {fa} {sb} {fb} -> {} ns", td_ns(&d)));
+                        }
+                    }
+                    Err(()) => fl.hit(c, "NaiveTime - NaiveTime panicked", &format!("tmo.tsub {secs} {fa} {sb} {fb}")),
+                }
                 c.op(&format!("tm.cmp {secs} {fa} {sb} {fb}"), &gs(|| a.cmp(&b) as i32, |x| x.to_string()));
                 if guard(|| a.cmp(&b) as i32) != Ok(spec_diff((secs, fa), (sb, fb)).signum() as i32) {
                     fl.hit(c, "derived order disagrees with the sign of the difference", &format!("tm.cmp {secs} {fa} {sb} {fb}"));
@@ -497,6 +636,8 @@ pub fn run(c: &mut Ctx) {
                 });
                 let name = if is_add { "tm.off" } else { "tm.offsub" };
                 c.op(&format!("{name} {ts} {frac} {off}"), &match &got { Ok((t, d, _)) => format!("{} {d}", show_t(t)), Err(()) => "panic".into() });
+                // `impl Add/Sub<FixedOffset> for NaiveTime`
+                c.op(&format!("tmo.off {} {ts} {frac} {off}", if is_add { "+" } else { "-" }), &match &got { Ok((_, _, t2)) => show_t(t2), Err(()) => "panic".into() });
                 match got {
                     Ok((r, days, t2)) => {
                         let total = ts as i64 + eff as i64;
@@ -509,8 +650,46 @@ pub fn run(c: &mut Ctx) {
                 }
             }
         }
+        // ---- offset shifts of LEAP-SECOND operands: every offset in (-86400, 86400), both directions ----
+        {
+            for (i, &off) in [secs as i32 - 86_399, secs as i32].iter().enumerate() {
+                let fo = FixedOffset::east_opt(off).unwrap();
+                for is_add in [true, false] {
+                    let eff = if is_add { off } else { -off };
+                    // 23:59:60.x (where a real leap second sits in UTC), or a leap representation placed so
+                    // that the shifted value lands on / next to a day boundary
+                    let ts: u32 = if (secs as usize + i + is_add as usize) % 2 == 0 {
+                        86_399
+                    } else {
+                        (*c.rng.pick(&[-1i32, 0, 1, 86_399, 86_400, 86_401]) - eff).rem_euclid(86_400) as u32
+                    };
+                    let frac = 1_000_000_000 + if c.rng.chance(1, 2) { c.rng.nanos() } else { *c.rng.pick(&[0u32, 1, 500_000_000, 999_999_999]) };
+                    let t = mk(ts, frac);
+                    let got = guard(|| {
+                        let dt = NaiveDateTime::new(mid, t);
+                        let r = if is_add { dt.checked_add_offset(fo) } else { dt.checked_sub_offset(fo) }.unwrap();
+                        let t2 = if is_add { t + fo } else { t - fo };
+                        (r.time(), (r.date() - mid).num_days(), t2)
+                    });
+                    let name = if is_add { "tm.off" } else { "tm.offsub" };
+                    // (the operator form `t ± fo` is judged by the oracle below; its op line `tmo.off` is sent in the block above)
+                    c.op(&format!("{name} {ts} {frac} {off}"), &match &got { Ok((t, d, _)) => format!("{} {d}", show_t(t)), Err(()) => "panic".into() });
+                    match got {
+                        Ok((r, days, t2)) => {
+                            let total = ts as i64 + eff as i64;
+                            tl.add(match days { -1 => "off-leap:day-1", 0 => "off-leap:day0", 1 => "off-leap:day+1", _ => "off-leap:other" });
+                            if raw(&r) != (total.rem_euclid(86_400) as u32, frac) || days != total.div_euclid(86_400) || r != t2 {
+                                fl.hit(c, "offset shift of a leap second changed the fraction or moved by the wrong number of seconds/days", &format!("{name} {ts} {frac} {off} -> {} {days}", show_t(&r)));
+                            }
+                        }
+                        Err(()) => fl.hit(c, "offset shift of a leap second panicked", &format!("{name} {ts} {frac} {off}")),
+                    }
+                }
+            }
+        }
         // ---- date-times: the carry is applied to the date ----------------------------------------
-        if thorough || secs % 3 == 0 {
+        // quick: additions on every third second (secs % 3 == 0), differences on every sixth (secs % 6 == 2)
+        if thorough || secs % 3 == 0 || secs % 6 == 2 {
             let frac = gen_frac(c);
             let ts = if c.rng.chance(1, 2) { secs } else { gen_secs(c) };
             let t = mk(ts, frac);
@@ -562,6 +741,29 @@ pub fn run(c: &mut Ctx) {
                         }
                         Err(()) => fl.hit(c, "date-time addition panicked", &format!("{name} {day} {ts} {frac} {ds} {df}")),
                     }
+                    // (a ± d) − a: the duration, up to the one-second error term of a leap operand left across midnight
+                    if let Ok(Some(r)) = got {
+                        let eff = if is_add { dn } else { -dn };
+                        let err = spec_diff_add_err(ts, frac, eff);
+                        let back = guard(|| r.signed_duration_since(dt));
+                        c.op(&format!("ar.dtdiff {} {} {} {ts} {frac}", yof(&r.date()), show_t(&r.time()), yof(&date)), &match &back { Ok(x) => show_td(x), Err(()) => "panic".into() });
+                        match back {
+                            Ok(x) => {
+                                if td_ns(&x) != eff + err {
+                                    fl.hit(c, "date-time difference after addition is not the duration plus the one-second error term of a leap operand left across midnight",
+                                        &format!("{name} {day} {ts} {frac} {ds} {df} -> {}; difference back {} ns, expected {} + {err}", show(Some(r)), td_ns(&x), eff));
+                                }
+                                tl.add(if err != 0 {
+                                    "observation:(a+d)-a differs from d by one second (leap-second operand left across midnight)"
+                                } else if (frac as i128) >= NS {
+                                    "dt:(a+d)-a = d, leap operand"
+                                } else {
+                                    "dt:(a+d)-a = d, non-leap operand"
+                                });
+                            }
+                            Err(()) => fl.hit(c, "date-time difference after addition panicked", &format!("{name} {day} {ts} {frac} {ds} {df}")),
+                        }
+                    }
                     // the operator and std::time::Duration forms are the checked form whenever it succeeds
                     if let Ok(Some(r)) = got {
                         let mut forms: Vec<(&'static str, Result<NaiveDateTime, ()>)> = vec![];
@@ -603,6 +805,25 @@ pub fn run(c: &mut Ctx) {
                         if td_ns(x) != -td_ns(&y) || td_ns(x) != (day - day2) as i128 * DAY + spec_diff((ts, frac), (sb, fb)) {
                             fl.hit(c, "date-time difference is not antisymmetric / not days + time-of-day difference", &format!("tm.dtdiff {day} {ts} {frac} {day2} {sb} {fb} -> {}", show_td(x)));
                         }
+                        // against the extended-line distance of date-times (Spec.dtDiffLine) and the cross terms
+                        let (pa, pb) = ((day, ts, frac), (day2, sb, fb));
+                        let ce = spec_cross_err(pa, pb) - spec_cross_err(pb, pa);
+                        if td_ns(x) != spec_dt_line_diff(pa, pb) + ce {
+                            fl.hit(c, "date-time difference is not the extended-line distance plus the cross terms of leap operands on another date",
+                                &format!("tm.dtdiff {day} {ts} {frac} {day2} {sb} {fb} -> {} ns, line distance {}, cross terms {ce}", td_ns(x), spec_dt_line_diff(pa, pb)));
+                        }
+                        // the derived order is the order on that line (theorem datetime_order_is_line_order)
+                        if guard(|| dt.cmp(&dt2) as i32) != Ok(spec_dt_line_diff(pa, pb).signum() as i32) {
+                            fl.hit(c, "derived order of date-times disagrees with the extended line", &format!("tm.dtdiff {day} {ts} {frac} {day2} {sb} {fb}"));
+                        }
+                        if td_ns(x).signum() != spec_dt_line_diff(pa, pb).signum() {
+                            tl.add("observation:sign of a date-time difference disagrees with the derived order (leap-second operand on another date)");
+                        }
+                        tl.add(if ce != 0 {
+                            "observation:date-time difference differs from the extended-line distance by one second (leap-second operand on another date)"
+                        } else {
+                            "dtdiff:equals the extended-line distance"
+                        });
                     }
                 }
             }
@@ -620,6 +841,22 @@ pub fn run(c: &mut Ctx) {
             let dur = Duration::new(ds, df);
             c.op(&format!("tm.addstd {secs} {frac} {ds} {df}"), &gs(|| t + dur, |x| show_t(&x)));
             c.op(&format!("tm.substd {secs} {frac} {ds} {df}"), &gs(|| t - dur, |x| show_t(&x)));
+            // `impl AddAssign/SubAssign<Duration> for NaiveTime`
+            {
+                let (pa, ma) = (guard(|| { let mut m = t; m += dur; m }), guard(|| { let mut m = t; m -= dur; m }));
+                c.op(&format!("tmo.std += {secs} {frac} {ds} {df}"), &match &pa { Ok(x) => show_t(x), Err(()) => "panic".into() });
+                c.op(&format!("tmo.std -= {secs} {frac} {ds} {df}"), &match &ma { Ok(x) => show_t(x), Err(()) => "panic".into() });
+                let dn = ds as i128 * NS + df as i128;
+                let (e, e2) = (spec_add(secs, frac, dn), spec_add(secs, frac, -dn));
+                match (pa, ma) {
+                    (Ok(x), Ok(x2)) => {
+                        if raw(&x) != (e.0, e.1) || raw(&x2) != (e2.0, e2.1) {
+                            fl.hit(c, "NaiveTime +=/-= std Duration is not the extended-line sum with the full amount", &format!("tmo.std +=/-= {secs} {frac} {ds} {df} -> {} / {}", show_t(&x), show_t(&x2)));
+                        }
+                    }
+                    _ => fl.hit(c, "NaiveTime +=/-= std Duration panicked (must wrap around)", &format!("tmo.std += {secs} {frac} {ds} {df}")),
+                }
+            }
             // oracle: on every operand (leap-second representations included) the std-Duration
             // operators give the same time as TimeDelta addition of the same amount, and the closed form
             if ds <= i64::MAX as u64 / 1000 {
